@@ -39,7 +39,7 @@ ASSUMPTIONS = [
 DAG_OPS = ["dup_output", "output_is_param", "cycle", "inconsistent_defaults", "run_missing", "run_surplus", "map_missing", "map_surplus"]
 MAP_OPS = [
     "mapspec_nonparam", "mapspec_output_mismatch", "axis_rank", "axis_swap", "axis_conflict_3specs", "bound_in_mapspec",
-    "missing_input", "surplus_input", "input_rank", "zip_mismatch", "nested_list_2d",
+    "missing_input", "surplus_input", "surplus_root_for_selection", "surplus_in_scope_dict", "input_rank", "zip_mismatch", "nested_list_2d",
     "unknown_storage", "unknown_storage_per_output", "executor_parallel_false", "missing_internal_shape",
     "fixed_unknown", "fixed_out_of_range", "fixed_reduced",
 ]  # fmt: skip
@@ -367,6 +367,63 @@ def body_map(data) -> Outcome:
             expect_rejection(out, op, log, lambda: remap(inputs2={a: b for a, b in inputs.items() if a != k}), folder, before)
         elif op == "surplus_input":
             expect_rejection(out, op, log, lambda: remap(inputs2=dict(inputs, zzz_surplus=[1, 2])), folder, before)
+        elif op == "surplus_root_for_selection":
+            # a root of the full pipeline that the selected outputs do not use is a surplus input of that selection
+            prod = mp.func_of_output(prog)
+
+            def roots_of(o, seen=None):
+                seen = set() if seen is None else seen
+                res = set()
+                for q in prod[o]["params"]:
+                    if q["name"] in prod:
+                        if q["name"] not in seen:
+                            seen.add(q["name"])
+                            res |= roots_of(q["name"], seen)
+                    else:
+                        res.add(q["name"])
+                return res
+
+            cands = [(o, sorted(set(inputs) - roots_of(o))) for o in mp.output_names(prog)]
+            cands = [(o, extra) for o, extra in cands if extra]
+            if not cands:
+                return na()
+            o, extra = cands[pick % len(cands)]
+            sel = {x for f in funcs if o in f["outs"] for x in f["outs"]}
+            needed = {k: v for k, v in inputs.items() if k in roots_of(o)}
+            surplus = dict(needed, **{extra[(pick // 3) % len(extra)]: inputs[extra[(pick // 3) % len(extra)]]})
+            new_folder = boot.fresh_path("c12sel")
+            ish_sel = None if not ish else ({k: v for k, v in ish.items() if k in {x for f in funcs for x in f["outs"]}} or None)
+
+            def call(auto):
+                try:
+                    pipe.map(surplus, output_names=sel, auto_subpipeline=auto, run_folder=new_folder, internal_shapes=ish_sel,
+                             parallel=False, storage=storage)  # fmt: skip
+                finally:
+                    boot.rm(new_folder)
+
+            expect_rejection(out, op, log, lambda: call(bool((pick >> 4) % 2)))
+        elif op == "surplus_in_scope_dict":
+            # scoped root inputs given in the nested notation {"sc": {...}}: an entry nobody reads is a surplus input
+            if not inputs:
+                return na()
+            try:
+                p_sc = mp.build_pipeline(prog, log)
+                p_sc.update_scope("sc", inputs="*")
+                nested_ok = {"sc": dict(inputs)}
+                f_ok = boot.fresh_path("c12sc")
+                p_sc.map(nested_ok, run_folder=f_ok, internal_shapes=ish, parallel=False, storage=storage)
+                boot.rm(f_ok)
+            except Exception:
+                return na()
+            f_bad = boot.fresh_path("c12sc")
+
+            def call_sc():
+                try:
+                    p_sc.map({"sc": dict(inputs, zzz_bogus=[1, 2])}, run_folder=f_bad, internal_shapes=ish, parallel=False, storage=storage)
+                finally:
+                    boot.rm(f_bad)
+
+            expect_rejection(out, op, log, call_sc)
         elif op == "input_rank":
             cands = [r for r in inputs if prog["roots"][r]["axes"] and any(p_["name"] == r and p_["spec"] is not None for f in ms_funcs for p_ in f["params"])]
             if not cands:
